@@ -643,6 +643,38 @@ func (d *deepView) exactBytes(v ssa.Value, fr *frame, want dval, depth int) (exa
 	if w := d.resolveConv(want.v, want.fr); ir.StripConv(r.v) == ir.StripConv(want.v) || ir.StripConv(r.v) == ir.StripConv(w.v) && r.fr == w.fr {
 		return true, true
 	}
+	// a variable that is reassigned (captured by a function literal, so kept in a cell):
+	// every value stored into it must be exactly those bytes; a store computed from the
+	// variable itself (x = bytes.Clone(x)) is judged with the variable taken as exact
+	if ld, ok := r.v.(*ssa.UnOp); ok && ld.Op == token.MUL {
+		cell := d.resolve(ld.X, r.fr)
+		if a, isA := cell.v.(*ssa.Alloc); isA {
+			if d.exactBusy == nil {
+				d.exactBusy = map[*ssa.Alloc]bool{}
+			}
+			if d.exactBusy[a] {
+				return true, true
+			}
+			d.exactBusy[a] = true
+			defer delete(d.exactBusy, a)
+			all, dec, n := true, true, 0
+			d.eachStoreTo(a, cell.fr, func(st *ssa.Store, f *frame) {
+				if ir.IsNilConst(st.Val) {
+					return
+				}
+				n++
+				ex, de := d.exactBytes(st.Val, f, want, depth+1)
+				all = all && ex
+				dec = dec && de
+			})
+			if n > 0 {
+				if dec && !all {
+					return false, true
+				}
+				return all && dec, dec
+			}
+		}
+	}
 	if ph, ok := r.v.(*ssa.Phi); ok {
 		all, dec := true, true
 		for _, e := range ph.Edges {
@@ -666,6 +698,15 @@ func (d *deepView) exactBytes(v ssa.Value, fr *frame, want dval, depth int) (exa
 		sv, w := d.resolveConv(segs[0].v.v, segs[0].v.fr), d.resolveConv(want.v, want.fr)
 		if ir.StripConv(sv.v) == ir.StripConv(want.v) || ir.StripConv(sv.v) == ir.StripConv(w.v) && sv.fr == w.fr {
 			return true, true
+		}
+		// all bytes of a variable: judged by what the variable holds
+		if ld, isLd := sv.v.(*ssa.UnOp); isLd && ld.Op == token.MUL && !(sv.v == r.v && sv.fr == r.fr) {
+			return d.exactBytes(sv.v, sv.fr, want, depth+1)
+		}
+		if ld, isLd := sv.v.(*ssa.UnOp); isLd && ld.Op == token.MUL {
+			if a, isA := d.resolve(ld.X, sv.fr).v.(*ssa.Alloc); isA && d.exactBusy[a] {
+				return true, true
+			}
 		}
 	}
 	return false, true
